@@ -1158,7 +1158,11 @@ def optimize_random_greedy_track_flops(
             cp0.flops_limit = best_flops
 
     # for consistency with cotengrust / easier comparison
-    best_flops = math.log10(batch_factor * best_flops)
+    if best_flops == 0:
+        # nothing to contract, e.g. a single term
+        best_flops = float("-inf")
+    else:
+        best_flops = math.log10(batch_factor * best_flops)
 
     if not use_ssa:
         best_path = ssa_to_linear(best_path, len(inputs))
